@@ -14,6 +14,7 @@ documentation embedded in the pinned source and validated by influence probing
 """
 import datetime as dt
 import math
+import re
 
 import numpy as np
 
@@ -816,6 +817,20 @@ def _num_eq(hx, hy, ulps=0):
     return abs(x - y) <= ulps * math.ulp(max(abs(x), abs(y)))
 
 
+_ISO = re.compile(r"\d{4}-\d{2}-\d{2}([T ]\d{2}:\d{2}(:\d{2}([.,]\d{1,9})?)?)?")
+
+
+def _same_iso_instant(a, b):
+    """ISO 8601 texts are compared as instants: '2014-01-01T00:00:00' and '2014-01-01T00:00:00.000000'
+    are the same date-time (the properties fix the instant and 'ISO 8601', not one spelling of it)"""
+    if not (isinstance(a, str) and isinstance(b, str) and _ISO.fullmatch(a) and _ISO.fullmatch(b)):
+        return False
+    try:
+        return dt.datetime.fromisoformat(a.replace(",", ".")) == dt.datetime.fromisoformat(b.replace(",", "."))
+    except ValueError:
+        return False
+
+
 def _float_close(a, b, ulps=0):
     """value equality of canonical leaves: metadata numbers compare numerically (the properties say
     'equals the number written'; only pixel data is compared bit for bit)"""
@@ -825,6 +840,8 @@ def _float_close(a, b, ulps=0):
         return False
     if a[0] == "float":
         return _num_eq(a[1], b[1], ulps)
+    if a[0] == "str":
+        return _same_iso_instant(a[1], b[1])
     if a[0] == "complex":
         return _num_eq(a[1], b[1], ulps) and _num_eq(a[2], b[2], ulps)
     if a[0] in ("list", "tuple") and len(a[1]) == len(b[1]):
